@@ -44,9 +44,10 @@ Fixpoint read_chunks (cs : list (Z * list Z)) (off n : Z) : list Z :=
           ++ read_chunks r (s + take) (off + n - (s + take))
   end.
 
-(* fh.seek(off); fh.read(n) : clipped at the end of the file *)
+(* fh.seek(off); fh.read(n) : clipped at the end of the file; seeking to a negative offset raises,
+   which every caller turns into Err through the short read *)
 Definition fread (f : file) (off n : Z) : list Z :=
-  read_chunks (fl_chunks f) off (Z.min n (fl_size f - off)).
+  if off <? 0 then [] else read_chunks (fl_chunks f) off (Z.min n (fl_size f - off)).
 
 (* ---------- packed little-endian structs, field by field ---------- *)
 Definition widths (l : list field) : list Z := map Base.Layout.f_size l.
